@@ -46,6 +46,8 @@ OBLIGATIONS = [
     "Grog.Compose.histEvs_writesSound",
     "Grog.Compose.recovery_cache_sound_of_history",
     "Grog.Compose.recovery_next_build_eq_clean_of_history",
+    "Grog.C07.dir_write_is_run",
+    "Grog.C07.dir_write_killed_anywhere",
 ]
 ASSUMPTIONS = [
     "rename(2) within one directory is atomic; CreateTemp names are never re-used (trusted base)",
